@@ -27,6 +27,8 @@ import (
 
 	"github.com/parquet-go/parquet-go"
 	"github.com/parquet-go/parquet-go/compress"
+	"github.com/parquet-go/parquet-go/encoding/thrift"
+	"github.com/parquet-go/parquet-go/format"
 
 	"verif/harness/core"
 )
@@ -1209,7 +1211,21 @@ func (env *c14Env) readAtFaults(sp *c14Spec, lay *c14Layout) {
 		ts = append(ts, t)
 	}
 	chunks := env.chunksOf(sp, ref)
-	for _, t := range ts {
+	// every page start and every header/body boundary of every chunk
+	for _, ch := range chunks {
+		at := ch.start
+		for _, pg := range strings.Split(ch.pages, ",") {
+			var h, b int
+			fmt.Sscanf(pg, "%d:%d", &h, &b)
+			ts = append(ts, at-1, at, at+1, at+h-1, at+h, at+h+1)
+			at += h + b
+		}
+	}
+	sort.Ints(ts)
+	for i, t := range ts {
+		if i > 0 && ts[i-1] == t {
+			continue
+		}
 		if t < 0 || t >= n {
 			continue
 		}
@@ -1242,12 +1258,16 @@ func (env *c14Env) readAtFaults(sp *c14Spec, lay *c14Layout) {
 
 type c14Chunk struct {
 	start, size int
-	pages       string // sizes of the pages (header + body), comma separated
+	pages       string // header:body lengths of the pages, comma separated
 }
 
-// chunksOf lists the column chunks of a file with the sizes of their pages
-// (dictionary page first), from the footer and the offset index.
+// chunksOf lists the column chunks of a file with the header and body lengths
+// of their pages (dictionary page first), from the footer and the page headers.
+// Encrypted files are not walked (their pages are AES-GCM envelopes).
 func (env *c14Env) chunksOf(sp *c14Spec, ref []byte) []c14Chunk {
+	if sp.Enc != 0 {
+		return nil
+	}
 	f, err := parquet.OpenFile(bytes.NewReader(ref), int64(len(ref)), env.openOpts(sp)...)
 	if err != nil {
 		return nil
@@ -1261,18 +1281,20 @@ func (env *c14Env) chunksOf(sp *c14Spec, ref []byte) []c14Chunk {
 			sum := 0
 			if md.DictionaryPageOffset > 0 {
 				ch.start = int(md.DictionaryPageOffset)
-				d := int(md.DataPageOffset - md.DictionaryPageOffset)
-				ps = append(ps, fmt.Sprint(d))
-				sum += d
 			}
-			oi, err := f.RowGroups()[g].ColumnChunks()[j].OffsetIndex()
-			if err != nil || oi == nil {
-				env.c.Note("file %s: no offset index for row group %d column %d; chunk model not compared", sp.Name, g, j)
-				return nil
-			}
-			for i := 0; i < oi.NumPages(); i++ {
-				ps = append(ps, fmt.Sprint(oi.CompressedPageSize(i)))
-				sum += int(oi.CompressedPageSize(i))
+			// walk the page headers of the chunk: (header length, body length)
+			at := ch.start
+			for sum < ch.size {
+				var hdr format.PageHeader
+				pr := new(thrift.CompactProtocol).NewReaderFromBytes(ref[at:])
+				if err := thrift.NewDecoder(pr).Decode(&hdr); err != nil {
+					env.c.Note("file %s: page header at %d does not decode (%v); chunk model not compared", sp.Name, at, err)
+					return nil
+				}
+				h, b := pr.BytesRead(), int(hdr.CompressedPageSize)
+				ps = append(ps, fmt.Sprintf("%d:%d", h, b))
+				sum += h + b
+				at += h + b
 			}
 			if sum != ch.size {
 				env.c.Note("file %s: pages of row group %d column %d add up to %d, chunk has %d bytes; chunk model not compared", sp.Name, g, j, sum, ch.size)
